@@ -95,13 +95,25 @@ def reference(trees, sep):
     return res
 
 
-def make_case(trees, sep, style, rng, family):
+TAILS = ['newline', 'newline', 'no-newline', 'blank-lines', 'blank-lines-no-newline']
+
+
+def make_case(trees, sep, style, rng, family, tail='newline'):
+    """tail: how the file ends after the last utterance"""
     lines = [sl.render(t, sep, style) for t in trees]
     text = []
     for l in lines:
         while rng.random() < 0.2:
             text.append(rng.choice(['\n', ' \n', '']))
         text.append(l + '\n')
+    if tail == 'no-newline' and text:
+        text[-1] = text[-1][:-1]                          # last utterance as read from a file without final newline
+    if tail.startswith('blank-lines'):
+        for _ in range(rng.randint(1, 3)):
+            text.append(rng.choice(['\n', ' \n', '  \n', '\t\n']))
+        if tail == 'blank-lines-no-newline':
+            text.append(rng.choice([' ', '  ', '\t']))   # whitespace-only last line without newline
+    family = family if tail == 'newline' else family + '+' + tail
 
     def oracle(out):
         if out[0] != 'ok':
@@ -135,9 +147,14 @@ def make_case(trees, sep, style, rng, family):
                 return 'token counts increase from a lower level to ' + lv
             prev = d[lv]['tokens']
         return None
+    def classes(out):
+        # space-padded tagging whose spaces are not phone separators: the tokens of the implementation keep padding spaces
+        if style != 'compact' and sep[0] != ' ' and out[0] == 'ok' and any(' ' in k for u in out[1][1].values() for k in u):
+            return {'padding_space_inside_token'}
+        return set()
     return dict(op=1301, arg=[text2j(text), sl.sepj(sep)], site='statistics.CorpusStatistics',
                 desc={'text': text, 'sep': sep, 'family': family},
-                impl=lambda: impl_stats(text, sep), dec=dec_stats, eq=eq_stats, oracle=oracle, nontrivial=lambda m: True)
+                impl=lambda: impl_stats(text, sep), dec=dec_stats, eq=eq_stats, oracle=oracle, classes=classes, nontrivial=lambda m: True)
 
 
 def main():
@@ -156,8 +173,10 @@ def main():
             trees.append([rng.choice(lexi) for _ in range(rng.randint(1, 5))])
         if not all(sl.tree_ok(t, sep) for t in trees):
             continue
-        style = 'padded' if sep[0] == ' ' and rng.random() < 0.6 else 'compact'
-        cases.append(make_case(trees, sep, style, rng, 'trees-%s-%s' % (fam, style)))
+        # space-padded tagging for every triple that allows it (padded; fullpad with a non-space phone separator)
+        pads = [st for st in sl.padded_styles(sep) if st != 'joined-padded']
+        style = rng.choice(pads) if pads and rng.random() < 0.6 else 'compact'
+        cases.append(make_case(trees, sep, style, rng, 'trees-%s-%s' % (fam, style), tail=TAILS[(k // len(SEPS)) % len(TAILS)]))
     # every total number of word tokens in a range (hapaxes and twice-seen words included): the statistics
     # are ratios of counts, and float formulas that recover counts from probabilities go wrong only at some totals
     for W in range(40, 261 if ck.thorough else 111):
@@ -173,7 +192,12 @@ def main():
             words = words[k:]
         if not all(sl.tree_ok(t, sep) for t in trees):
             continue
-        cases.append(make_case(trees, sep, 'compact', rng, 'token-total-sweep'))
+        cases.append(make_case(trees, sep, 'compact', rng, 'token-total-sweep', tail=rng.choice(TAILS)))
+        # the same total in space-padded tagging, with another triple
+        sep2 = SEPS[(W + 3) % len(SEPS)]
+        pads = [st for st in sl.padded_styles(sep2) if st != 'joined-padded']
+        if pads and all(sl.tree_ok(t, sep2) for t in trees):
+            cases.append(make_case(trees, sep2, pads[W % len(pads)], rng, 'token-total-sweep-padded', tail=rng.choice(TAILS)))
     # malformed stream: too few words, empty corpus, no word separator (correspondence only)
     for text, sep in ((['a b ;eword\n'], (' ', None, ';eword')), ([], (' ', None, ';eword')), (['\n', ' \n'], (' ', None, ';eword')),
                       (['a b c\n'], (' ', None, None)), ([';eword\n'], (' ', ';esyll', ';eword')), (['a ;eword b ;eword\n'] * 6, (' ', None, ';eword'))):
@@ -190,7 +214,9 @@ def main():
     finish_proof_failures(ck, failures + problems)
     return ck.finish(
         rule='%d random corpora of more than ten word tokens built from word/syllable/phone trees (repeated words, multi-character and non-ASCII phones, lines with their newline, '
-             'blank and whitespace-only lines) x %d separator triples with phone and/or syllable level undefined; describe_all() and unigram compared with the model and with direct counts '
+             'blank and whitespace-only lines between and after the utterances, last line with or without newline) x %d separator triples with phone and/or syllable level undefined '
+             'x compact / space-padded tagging (padded, fullpad; also with non-space and undefined phone separators), and a sweep over every total number of word tokens in compact and padded tagging; '
+             'describe_all() and unigram compared with the model and with direct counts '
              '(floats vs exact rationals, 1e-9; the entropy sum is evaluated in floating point from the model\'s rational ingredients).' % (n, len(SEPS)))
 
 
